@@ -1,14 +1,331 @@
 /-
 C07 — any string is expressible in expression syntax; bad expressions fail cleanly.
-Property theorems only (helpers in Proofs/Lemmas/C07*.lean).
+Property theorems only (helpers: Proofs/Lemmas/C07Tok.lean, C07Parse.lean, C07Quote.lean).
+
+All statements quantify over every byte string, every oracle (`cx.compileOK`, `cx.isSpaceHi`),
+every state of the error tracker and both tokenizer modes.
 -/
-import Model.Proc.Tok
-import Model.Proc.ParseFilter
-import Model.Proc.ParseProj
+import Proofs.Lemmas.C07Quote
 
 namespace C07
-open Proc.Tok
+open Proc.Tok Proc.ParseFilter
 
-theorem placeholder : True := trivial
+/-! ## quoting -/
+
+/-- **quoted_word_scan**: for every body made of items (a byte other than `"` and `\`, or `\`
+followed by any byte) the end-quote scan stops exactly at the closing quote: the token is the
+unquoted body, the remaining input is `rest`; the only possible failure is `strconv.Unquote`'s
+own verdict on the literal. -/
+theorem quoted_word_scan (cx : Ctx) (m : Bool) {body : Bytes} (h : Items body) (rest : Bytes) (e : ErrSt) :
+    next cx m (cQuote :: (body ++ cQuote :: rest)) e =
+      match unquote (cQuote :: (body ++ [cQuote])) with
+      | some w => mkTok cx (cQuote :: (body ++ cQuote :: rest)) kQ w rest e
+      | none => tokError cx (cQuote :: (body ++ cQuote :: rest)) .badEscape e := by
+  rw [next_quote]
+  unfold quotedWord
+  simp only [List.drop_succ_cons, List.drop_zero, scanQuote_items h rest]
+  cases unquote (cQuote :: (body ++ [cQuote])) <;> rfl
+
+/-- a body ending in an escaped backslash (the shape that failed before 2efbfeb) is made of items -/
+example : Items [120, cBsl, cBsl] :=
+  Items.plain (by decide) (by decide) (Items.esc Items.nil)
+
+/-- **quote_expressible**: every byte string `s` has a double-quoted Go literal (`hexQuote s`,
+each byte written `\xHH`) that tokenizes, in key and in value position and whatever follows, to
+exactly one quoted-word token carrying `s`.  Fully proved (scan + model of strconv.Unquote). -/
+theorem quote_expressible (cx : Ctx) (m : Bool) (s rest : Bytes) (e : ErrSt) :
+    next cx m (hexQuote s ++ rest) e = mkTok cx (hexQuote s ++ rest) kQ s rest e := by
+  have h := quoted_word_scan cx m (items_hexBody s) rest e
+  have hu := unquote_hexQuote s
+  simp only [hexQuote] at hu ⊢
+  have hshape : cQuote :: (s.flatMap hexEsc ++ [cQuote]) ++ rest = cQuote :: (s.flatMap hexEsc ++ cQuote :: rest) := by
+    simp
+  rw [hshape, h, hu]
+
+/-- **quote_expressible_partial** (strconv.Quote): if the body of `strconv.Quote s` consists of
+items and unquotes back to `s` — both facts are validated for the model `goQuote` and for the real
+strconv on every `quote` case of the correspondence run, not proved here (they need the UTF-8
+encode/decode round trip) — then `strconv.Quote s` tokenizes to exactly one quoted word carrying `s`. -/
+theorem quote_expressible_partial (cx : Ctx) (m : Bool) (isPrint : Nat → Bool) (s rest : Bytes) (e : ErrSt)
+    (hItems : Items (quoteBody isPrint (s.length + 1) s))
+    (hRound : unquote (goQuote isPrint s) = some s) :
+    next cx m (goQuote isPrint s ++ rest) e = mkTok cx (goQuote isPrint s ++ rest) kQ s rest e := by
+  have h := quoted_word_scan cx m hItems rest e
+  simp only [goQuote] at hRound ⊢
+  have hshape : cQuote :: (quoteBody isPrint (s.length + 1) s ++ [cQuote]) ++ rest =
+      cQuote :: (quoteBody isPrint (s.length + 1) s ++ cQuote :: rest) := by simp
+  rw [hshape, h, hRound]
+
+/-- non-vacuity of the hypotheses for a string with quote, backslash, newline and a non-UTF-8 byte -/
+example : Items (quoteBody (fun r => 0x20 ≤ r && r < 0x7f) 6 [34, 92, 10, 0xff, 97]) ∧
+    unquote (goQuote (fun r => 0x20 ≤ r && r < 0x7f) [34, 92, 10, 0xff, 97]) = some [34, 92, 10, 0xff, 97] := by
+  constructor
+  · exact Items.esc (Items.esc (Items.esc (Items.esc (Items.plain (by decide) (by decide)
+      (Items.plain (by decide) (by decide) (Items.plain (by decide) (by decide) Items.nil))))))
+  · decide +kernel
+
+/-- **bare_word_ok**: a non-empty word none of whose runes is white space or one of `( ) : @ ,`,
+not starting with `-`, `*` or `"` (nor, in value position, with `/`), and different from `AND` and
+`OR`, tokenizes to itself. -/
+theorem bare_word_ok (cx : Ctx) (m : Bool) (c : UInt8) (t : Bytes) (e : ErrSt)
+    (hop : isStartOpB c = false) (hq : c ≠ cQuote) (hsl : m = true → c ≠ cSlash)
+    (hr : allRunes (fun r => !(isSpaceRune cx r || isOpR r)) (t.length + 2) (c :: t) = true)
+    (hA : c :: t ≠ wAND) (hO : c :: t ≠ wOR) :
+    next cx m (c :: t) e = mkTok cx (c :: t) kW (c :: t) [] e := by
+  have hsz := decodeRune_size c t
+  have hr1 : (isSpaceRune cx (decodeRune (c :: t)).1 || isOpR (decodeRune (c :: t)).1) = false := by
+    simp only [allRunes, Bool.and_eq_true, Bool.not_eq_true'] at hr
+    exact hr.1
+  have hsp : isSpaceLen cx (c :: t) = 0 := by
+    simp only [Bool.or_eq_false_iff] at hr1
+    simp only [isSpaceLen]
+    split
+    · rename_i h20
+      have : c = 0x20 := by simpa using h20
+      subst this
+      have := hr1.1
+      simp [decodeRune, isSpaceRune] at this
+    · simp [hr1.1]
+  have hre : (m && c == cSlash) = false := by
+    cases m with
+    | false => rfl
+    | true => simpa using hsl rfl
+  have hsplit := bareSplit_all cx (t.length + 2) (c :: t) (by simp) hr
+  simp only [next, nextF, hop, hsp, hre, List.length_cons]
+  simp only [bareWord, List.length_cons, hsplit]
+  simp [hq, hA, hO]
+
+example : allRunes (fun r => !(isSpaceRune ⟨0, fun _ => true, fun _ => false⟩ r || isOpR r)) 5 [0xC3, 0xA9, 45, 42] = true := by
+  decide +kernel
+
+/-! ## totality and error positions -/
+
+/-- **parse_total**: the models are total functions (structural recursion on fuel), and the fuel
+handed out is never exhausted: from the amounts used by `parseFilter` / `parseProjection` / `next`
+and by the inner loops upwards, the result does not depend on the fuel. -/
+theorem parse_total (cx : Ctx) (q : Bytes) (e : ErrSt) :
+    (∀ f, fuelFor q ≤ f → exprF cx f q e = exprF cx (fuelFor q) q e) ∧
+    (∀ n fs, q.length < n → Proc.ParseProj.projLoop cx n fs q e = Proc.ParseProj.projLoop cx (q.length + 1) fs q e) ∧
+    (∀ m f, q.length < f → nextF cx m f q e = next cx m q e) ∧
+    (∀ off key f terms, q.length < f → listLoop cx off key f terms q e = listLoop cx off key (q.length + 1) terms q e) ∧
+    (∀ n fld, q.length < n → Proc.ParseProj.fixedLoop cx n fld q e = Proc.ParseProj.fixedLoop cx (q.length + 1) fld q e) := by
+  refine ⟨?_, ?_, ?_, ?_, ?_⟩
+  · intro f hf
+    have h1 : 5 * q.length + 4 < f := by unfold fuelFor at hf; omega
+    have h2 : 5 * q.length + 4 < fuelFor q := by unfold fuelFor; omega
+    have h := (parser_fuel cx f).1
+    exact h (fuelFor q) q e h1 h2
+  · intro n fs h; exact projLoop_fuel cx n _ fs q e h (Nat.lt_succ_self _)
+  · intro m f h; exact nextF_fuel cx m f q e h
+  · intro off key f terms h; exact listLoop_fuel cx off key f _ terms q e h (Nat.lt_succ_self _)
+  · intro n fld h; exact fixedLoop_fuel cx n _ fld q e h (Nat.lt_succ_self _)
+
+/-- **error_offset_in_range**: a syntax error of `ParseFilter` / `ParseProjection` is positioned
+inside the text: `0 ≤ off ≤ len`. -/
+theorem error_offset_in_range (cx : Ctx) (q : Bytes) (err : Err) (hn : cx.n = q.length) :
+    (parseFilter cx q = .error err → 0 ≤ err.off ∧ err.off ≤ q.length) ∧
+    (Proc.ParseProj.parseProjection cx q = .error err → 0 ≤ err.off ∧ err.off ≤ q.length) := by
+  have fin : ∀ e', ErrOK cx q none e' → e' = some err → 0 ≤ err.off ∧ err.off ≤ (q.length : Int) := by
+    intro e' h he
+    rcases h with h | ⟨_, q', m, h2, h3⟩
+    · rw [h] at he; simp at he
+    · rw [h2] at he
+      simp at he
+      rw [← he]
+      simp only [offOf, hn]
+      omega
+  constructor
+  · intro h
+    have hr := (parser_ok cx (fuelFor q)).1 q none
+    have hE := hr.err.trans ((endCheck_ok cx (exprF cx (fuelFor q) q none).rest (exprF cx (fuelFor q) q none).err).mono hr.rest_le)
+    simp only [parseFilter] at h
+    split at h
+    · rename_i x hx
+      simp at h
+      exact fin _ hE (by rw [hx, h])
+    · simp at h
+  · intro h
+    have hr := projLoop_ok cx (q.length + 1) [] q none
+    have hE := hr.2.trans ((endCheck_ok cx _ _).mono hr.1)
+    simp only [Proc.ParseProj.parseProjection] at h
+    split at h
+    · rename_i x hx
+      simp at h
+      exact fin _ hE (by rw [hx, h])
+    · simp at h
+
+/-! ## rejections
+
+Each rejection is stated where the construct is recognised (for every remaining input, error
+tracker and fuel ≥ 1): the tracker is non-empty afterwards.  `error_is_final` turns a non-empty
+tracker into the verdict of the whole parse. -/
+
+/-- once an error is recorded it is never lost or replaced, and the parse fails with it -/
+theorem error_is_final (cx : Ctx) (q : Bytes) (x : Err) :
+    (∀ m, (next cx m q (some x)).err = some x) ∧
+    (∀ f, (matchF cx f q (some x)).err = some x ∧ (exprF cx f q (some x)).err = some x) ∧
+    ((exprF cx (fuelFor q) q none).err = some x → parseFilter cx q = .error x) ∧
+    (Proc.ParseProj.parseField cx q (some x)).err = some x := by
+  refine ⟨?_, ?_, ?_, ?_⟩
+  · intro m; exact (next_ok cx m q (some x)).err.some
+  · intro f
+    exact ⟨((parser_ok cx f).2.2.2.2 q (some x)).1.err.some, ((parser_ok cx f).1 q (some x)).err.some⟩
+  · intro h
+    unfold parseFilter
+    generalize exprF cx (fuelFor q) q none = r at h ⊢
+    obtain ⟨rf, rr, re⟩ := r
+    simp only at h
+    subst h
+    simp only [endCheck_some]
+  · exact (parseField_ok cx q (some x)).1.err.some
+
+/-- **unterminated_quote_rejected**: a quoted word whose scan finds no closing quote records an
+error (and yields the EOF token), in key and value position. -/
+theorem unterminated_quote_rejected (cx : Ctx) (m : Bool) (r : Bytes) (e : ErrSt) (h : scanQuote r = none) :
+    (next cx m (cQuote :: r) e).err.isSome ∧ (next cx m (cQuote :: r) e).tok.kind = 0 := by
+  rw [next_quote]
+  unfold quotedWord
+  simp only [List.drop_succ_cons, List.drop_zero, h]
+  exact ⟨recErr_isSome _ _ _ _, rfl⟩
+
+example : scanQuote [120, cBsl, cQuote] = none := by decide
+
+/-- **unterminated_regexp_rejected**: in value position, `/` with no closing `/` at the top level
+(outside brackets and parentheses, not escaped) records an error. -/
+theorem unterminated_regexp_rejected (cx : Ctx) (r : Bytes) (e : ErrSt) (h : reScan r 0 0 = none) :
+    (next cx true (cSlash :: r) e).err.isSome ∧ (next cx true (cSlash :: r) e).tok.kind = 0 := by
+  have h1 : isStartOpB cSlash = false := by decide
+  have h2 : isSpaceLen cx (cSlash :: r) = 0 := by simp [isSpaceLen, cSlash, decodeRune, isSpaceRune]
+  simp only [next, nextF, h1, h2]
+  simp only [regexpTok, List.drop_succ_cons, List.drop_zero, h]
+  simp [tokError, mkTok, recErr_isSome]
+
+example : reScan [91, cSlash, 97] 0 0 = none := by decide
+
+/-- **missing_colon_rejected**: a term whose key is not followed by `:`, or whose `:` is not
+followed by a value or a parenthesised list, records an error. -/
+theorem missing_colon_rejected (cx : Ctx) (f : Nat) (q : Bytes) (e : ErrSt)
+    (hw : isWord (next cx false q e).tok.kind = true)
+    (h : (next cx false (next cx false q e).rest (next cx false q e).err).tok.kind ≠ cColon ∨
+      (let v := next cx true (next cx false (next cx false q e).rest (next cx false q e).err).rest
+          (next cx false (next cx false q e).rest (next cx false q e).err).err
+       isValue v.tok.kind = false ∧ v.tok.kind ≠ cLP)) :
+    (matchF cx (f + 1) q e).err.isSome := by
+  have k1 : ((next cx false q e).tok.kind == cLP) = false := by
+    simp only [isWord, Bool.or_eq_true, beq_iff_eq] at hw
+    rcases hw with hw | hw <;> rw [hw] <;> decide
+  have k2 : ((next cx false q e).tok.kind == cDash) = false := by
+    simp only [isWord, Bool.or_eq_true, beq_iff_eq] at hw
+    rcases hw with hw | hw <;> rw [hw] <;> decide
+  have k3 : ((next cx false q e).tok.kind == cStar) = false := by
+    simp only [isWord, Bool.or_eq_true, beq_iff_eq] at hw
+    rcases hw with hw | hw <;> rw [hw] <;> decide
+  simp only [matchF, k1, k2, k3, hw]
+  rcases h with h | ⟨hv1, hv2⟩
+  · simp [h, perr, recErr_isSome]
+  · by_cases hc : (next cx false (next cx false q e).rest (next cx false q e).err).tok.kind = cColon
+    · simp [hc, hv1, hv2, perr, recErr_isSome]
+    · simp [hc, perr, recErr_isSome]
+
+/-- **empty_fixed_list_rejected**: `key @ ( )` records an error. -/
+theorem empty_fixed_list_rejected (cx : Ctx) (q : Bytes) (e : ErrSt)
+    (hk : Proc.ParseProj.isWord (next cx false q e).tok.kind = true)
+    (hat : (next cx false (next cx false q e).rest (next cx false q e).err).tok.kind = cAt)
+    (hlp : (next cx false (next cx false (next cx false q e).rest (next cx false q e).err).rest
+      (next cx false (next cx false q e).rest (next cx false q e).err).err).tok.kind = cLP)
+    (hrp : (next cx false (next cx false (next cx false (next cx false q e).rest (next cx false q e).err).rest
+      (next cx false (next cx false q e).rest (next cx false q e).err).err).rest
+      (next cx false (next cx false (next cx false q e).rest (next cx false q e).err).rest
+      (next cx false (next cx false q e).rest (next cx false q e).err).err).err).tok.kind = cRP) :
+    (Proc.ParseProj.parseField cx q e).err.isSome := by
+  have w1 : Proc.ParseProj.isWord cLP = false := by decide
+  have w2 : Proc.ParseProj.isWord cRP = false := by decide
+  simp only [Proc.ParseProj.parseField, hk, hat, hlp, w1, Proc.ParseProj.fixedLoop, hrp, w2]
+  simp [recErr_isSome]
+
+open Proc.ParseProj in
+/-- **unknown_order_rejected**: an order name other than `alpha`, `num`, `first` (and the internal
+`fixed` with a non-empty list) makes `makeProjection` fail with "unknown order"; so does the
+literal name `fixed` (147e6a6). -/
+theorem unknown_order_rejected (f : Field)
+    (h : (f.order ≠ oFixed ∧ f.order ≠ oFirst ∧ f.order ≠ oAlpha ∧ f.order ≠ oNum) ∨
+      (f.order = oFixed ∧ f.fixed = [])) :
+    checkField f = some ⟨f.orderOff, .unknownOrder⟩ := by
+  rcases h with ⟨h1, h2, h3, h4⟩ | ⟨h1, h2⟩
+  · simp [checkField, h1, h2, h3, h4]
+  · simp [checkField, h1, h2]
+
+open Proc.ParseProj in
+theorem checkFields_of_mem {fs : List Field} {f : Field} (hm : f ∈ fs) (h : checkField f ≠ none) :
+    checkFields fs ≠ none := by
+  induction fs with
+  | nil => simp at hm
+  | cons g gs ih =>
+    simp only [checkFields]
+    cases hg : checkField g with
+    | some x => simp
+    | none =>
+      simp only
+      rcases List.mem_cons.mp hm with rfl | hm'
+      · exact absurd hg h
+      · exact ih hm'
+
+open Proc.ParseProj in
+/-- **unit_in_projection_rejected**: a projection with a field whose key is `.unit` is rejected. -/
+theorem unit_in_projection_rejected (cx : Ctx) (q : Bytes) (fs : List Field) (f : Field)
+    (hp : parseProjection cx q = .ok fs) (hm : f ∈ fs) (hk : f.key = kUnit) :
+    ∃ err, parse cx q = .error err := by
+  have hne : checkField f ≠ none := by
+    have d1 : (kUnit == kConfig) = false := by decide
+    have d2 : (kUnit == kFullname) = false := by decide
+    simp only [checkField, hk, d1, d2]
+    split
+    · simp
+    · split
+      · simp
+      · simp
+  have := checkFields_of_mem hm hne
+  simp only [parse, hp]
+  cases hc : checkFields fs with
+  | none => exact absurd hc this
+  | some err => exact ⟨err, rfl⟩
+
+/-- a leaf with the given key occurs in the tree -/
+inductive HasKey (key : Bytes) : Filter → Prop
+  | lit (v : Bytes) (off : Int) : HasKey key (.lit key v off)
+  | re (v : Bytes) (off : Int) : HasKey key (.re key v off)
+  | op (o : Op) (es : List Filter) (x : Filter) : x ∈ es → HasKey key x → HasKey key (.op o es)
+
+theorem checkList_of_mem {es : List Filter} {x : Filter} (hm : x ∈ es) (h : checkFilter x ≠ none) :
+    checkFilter.checkList es ≠ none := by
+  induction es with
+  | nil => simp at hm
+  | cons g gs ih =>
+    simp only [checkFilter.checkList]
+    cases hg : checkFilter g with
+    | some y => simp
+    | none =>
+      simp only
+      rcases List.mem_cons.mp hm with rfl | hm'
+      · exact absurd hg h
+      · exact ih hm'
+
+theorem hasKey_config_check {t : Filter} (hk : HasKey kConfig t) : checkFilter t ≠ none := by
+  have d : (kConfig == kUnit) = false := by decide
+  induction hk with
+  | lit v off => simp [checkFilter, checkFilter.checkKey, d]
+  | re v off => simp [checkFilter, checkFilter.checkKey, d]
+  | op o es x hm _ ih => simp only [checkFilter]; exact checkList_of_mem hm ih
+
+/-- **config_in_filter_rejected**: a filter whose tree has a leaf with key `.config` (anywhere) is
+rejected by `NewFilter`. -/
+theorem config_in_filter_rejected (cx : Ctx) (q : Bytes) (t : Filter)
+    (hp : parseFilter cx q = .ok t) (hk : HasKey kConfig t) :
+    ∃ err, newFilter cx q = .error err := by
+  have hne := hasKey_config_check hk
+  simp only [newFilter, hp]
+  cases hc : checkFilter t with
+  | none => exact absurd hc hne
+  | some err => exact ⟨err, rfl⟩
 
 end C07
